@@ -375,6 +375,16 @@ def pagemapGet (fx : PmFix) (g : Nat) (s : St) : Bool × St :=
       | (false, s) => fail s
       | (true, s) => (true, unlock (munlock s))
 
+/-! ### the file set grows (num_files_pre_hook) -/
+
+/-- `kdump_set_attr(file.set.number)` growing the file set by `k` slots of `per` blocks each (the
+slot directory and its template, `fd`, `name`) under the writer lock of `kdump_set_attr`:
+`num_files_pre_hook` keeps the new slots only as a whole — on a failure every slot created so far,
+the partial one included, is deallocated again. -/
+def numFilesGrow (per k : Nat) (s : St) : Bool × St :=
+  let r := allocAll (per * k) (wrlock s)
+  (r.1.isSome, unlock r.2)
+
 /-! ### canonical trace (what the correspondence stream compares) -/
 
 def Ev.show : Ev → String
